@@ -1117,12 +1117,17 @@ Error CodeHolder::flatten() noexcept {
     }
     section->set_offset(offset);
 
-    // Make sure the previous section extends a bit to cover the alignment.
+    // Make sure the previous non-empty section extends a bit to cover the alignment. An empty section must stay
+    // empty - if it was given the padding of the section that follows it, it would become a non-empty section at
+    // an offset that is not aligned to its alignment, and `code_size()` would then report more than the end of
+    // the last section.
     if (prev) {
       prev->_virtual_size = offset - prev->_offset;
     }
 
-    prev = section;
+    if (real_size) {
+      prev = section;
+    }
     offset += real_size;
   }
 
